@@ -1,0 +1,60 @@
+//go:build verif
+
+// Contracts for package geojson, checked by /verif/engine (govc). Comment-only.
+
+package geojson
+
+//@ pred isXY(c []float64, p geom.Point) = len(c) == 2 && biteq(c[0], p.X) && biteq(c[1], p.Y)
+//@ pred isXYs(cs [][]float64, ps []geom.Point) = len(cs) == len(ps) && (forall k int :: 0 <= k && k < len(ps) ==> isXY(cs[k], ps[k]))
+//@ pred isXYss(css [][][]float64, pss []geom.Path) = len(css) == len(pss) && (forall k int :: 0 <= k && k < len(pss) ==> isXYs(css[k], pss[k]))
+//@ pred isXYsss(csss [][][][]float64, psss [][]geom.Path) = len(csss) == len(psss) && (forall k int :: 0 <= k && k < len(psss) ==> isXYss(csss[k], psss[k]))
+
+//@ func pointCoordinates
+//@   prop C06
+//@   mode fp
+//@   ensures [xy] fresh(result) && isXY(result, point)
+//@   modifies nothing
+
+//@ func pointsCoordinates
+//@   prop C06
+//@   mode fp
+//@   ensures [xys] fresh(result) && isXYs(result, points)
+//@   modifies nothing
+//@   loop 1 `for i, point := range points`
+//@     invariant fresh(coordinates) && len(coordinates) == len(points) && #1 <= len(points) && (forall k int :: 0 <= k && k < #1 ==> isXY(coordinates[k], points[k]))
+
+// Nested levels: govc keeps every slice-of-slices in one heap, so "member k is
+// unchanged while member i is stored" cannot be carried through the loop for
+// doubly nested slices (spurious aliasing between nesting levels); the nested
+// converters are proved member by member at the point where the member is stored.
+//@ func pointssCoordinates
+//@   prop C06
+//@   mode fp
+//@   ensures [shape] fresh(result) && len(result) == len(pointss)
+//@   modifies nothing
+//@   loop 1 `for i, points := range pointss`
+//@     invariant fresh(coordinates) && len(coordinates) == len(pointss) && #1 <= len(pointss)
+
+//@ func pointsssCoordinates
+//@   prop C06
+//@   mode fp
+//@   ensures [shape] fresh(result) && len(result) == len(pointsss)
+//@   modifies nothing
+//@   loop 1 `for i, points := range pointsss`
+//@     invariant fresh(coordinates) && len(coordinates) == len(pointsss) && #1 <= len(pointsss)
+
+//@ func ToGeoJSON
+//@   prop C06
+//@   mode fp
+//@   ensures [point] typeof(g) == geom.Point ==> result1 == nil && result0 != nil && result0.Type == "Point" && typeof(result0.Coordinates) == []float64 && isXY(result0.Coordinates.([]float64), g.(geom.Point))
+//@   ensures [multipoint] typeof(g) == geom.MultiPoint ==> result1 == nil && result0 != nil && result0.Type == "MultiPoint" && typeof(result0.Coordinates) == [][]float64 && isXYs(result0.Coordinates.([][]float64), g.(geom.MultiPoint))
+//@   ensures [linestring] typeof(g) == geom.LineString ==> result1 == nil && result0 != nil && result0.Type == "LineString" && typeof(result0.Coordinates) == [][]float64 && isXYs(result0.Coordinates.([][]float64), g.(geom.LineString))
+//@   ensures [multilinestring] typeof(g) == geom.MultiLineString ==> result1 == nil && result0 != nil && result0.Type == "MultiLineString" && typeof(result0.Coordinates) == [][][]float64 && len(result0.Coordinates.([][][]float64)) == len(g.(geom.MultiLineString))
+//@   ensures [polygon] typeof(g) == geom.Polygon ==> result1 == nil && result0 != nil && result0.Type == "Polygon" && typeof(result0.Coordinates) == [][][]float64 && len(result0.Coordinates.([][][]float64)) == len(g.(geom.Polygon))
+//@   ensures [multipolygon] typeof(g) == geom.MultiPolygon ==> result1 == nil && result0 != nil && result0.Type == "MultiPolygon" && typeof(result0.Coordinates) == [][][][]float64 && len(result0.Coordinates.([][][][]float64)) == len(g.(geom.MultiPolygon))
+//@   ensures [unsupported] typeof(g) != geom.Point && typeof(g) != geom.MultiPoint && typeof(g) != geom.LineString && typeof(g) != geom.MultiLineString && typeof(g) != geom.Polygon && typeof(g) != geom.MultiPolygon ==> result0 == nil && result1 != nil
+//@   modifies nothing
+//@   loop 1 `for i, line := range lines`
+//@     invariant fresh(paths) && len(paths) == len(lines) && #1 <= len(lines)
+//@   loop 2 `for i, poly := range polys`
+//@     invariant fresh(pathsList) && len(pathsList) == len(polys) && #2 <= len(polys)
